@@ -473,6 +473,7 @@ func (req *Request) getDistributedResponse(ctx context.Context) (*Response, erro
 	var waitGroup sync.WaitGroup
 	collectedDatasets := make(chan ResultSet, len(req.lmd.nodeAccessor.nodeBackends))
 	collectedFailedHashes := make(chan map[string]string, len(req.lmd.nodeAccessor.nodeBackends))
+	collectedTotals := make(chan int, len(req.lmd.nodeAccessor.nodeBackends))
 	for nodeID, nodeBackends := range req.lmd.nodeAccessor.nodeBackends {
 		node := req.lmd.nodeAccessor.Node(nodeID)
 		// limit to requested backends if necessary
@@ -483,6 +484,7 @@ func (req *Request) getDistributedResponse(ctx context.Context) (*Response, erro
 		if len(subBackends) == 0 {
 			collectedDatasets <- ResultSet{}
 			collectedFailedHashes <- map[string]string{}
+			collectedTotals <- 0
 
 			continue
 		}
@@ -495,9 +497,11 @@ func (req *Request) getDistributedResponse(ctx context.Context) (*Response, erro
 			}
 			if res.result == nil {
 				res.SetResultData()
+				res.resultTotal = res.rawResults.Total
 			}
 			collectedDatasets <- res.result
 			collectedFailedHashes <- res.failed
+			collectedTotals <- res.resultTotal
 
 			continue
 		}
@@ -541,6 +545,7 @@ func (req *Request) getDistributedResponse(ctx context.Context) (*Response, erro
 			// Collect data
 			collectedDatasets <- rows
 			collectedFailedHashes <- failedHashStrings
+			collectedTotals <- interface2int(hash["total_count"])
 		})
 		if err != nil {
 			return nil, err
@@ -563,7 +568,7 @@ func (req *Request) getDistributedResponse(ctx context.Context) (*Response, erro
 		return nil, err
 	}
 
-	res := req.mergeDistributedResponse(collectedDatasets, collectedFailedHashes)
+	res := req.mergeDistributedResponse(collectedDatasets, collectedFailedHashes, collectedTotals)
 
 	// Process results
 	// This also applies sort/offset/limit settings
@@ -719,7 +724,7 @@ func (req *Request) buildDistributedRequestData(subBackends []string) (requestDa
 }
 
 // mergeDistributedResponse returns response object with merged result from distributed requests.
-func (req *Request) mergeDistributedResponse(collectedDatasets chan ResultSet, collectedFailedHashes chan map[string]string) *Response {
+func (req *Request) mergeDistributedResponse(collectedDatasets chan ResultSet, collectedFailedHashes chan map[string]string, collectedTotals chan int) *Response {
 	// Build response object
 	res := &Response{
 		code:    200,
@@ -760,7 +765,9 @@ func (req *Request) mergeDistributedResponse(collectedDatasets chan ResultSet, c
 			}
 		} else {
 			// Regular request
+			// the sub results are cut to limit + offset rows, add up the number of matches of all nodes
 			res.result = append(res.result, currentRows...)
+			res.resultTotal += <-collectedTotals
 			currentFailedHash := <-collectedFailedHashes
 			for id, val := range currentFailedHash {
 				res.failed[id] = val
